@@ -395,6 +395,11 @@ class Body:
                 p = {"l": q["l"], "p": list(q["p"]) + list(p["p"][1:])}
             else:
                 break
+        # CONST[i] with a constant index renders as the element's value
+        if len(p["p"]) == 1 and isinstance(p["p"][0], dict) and ("idx" in p["p"][0] or ("cidx" in p["p"][0] and not p["p"][0]["end"])) and p["l"] not in self.names:
+            v = self._const_elem(p)
+            if v is not None:
+                return str(v)
         # (tmp.0) of a checked op renders as the op itself
         if p["p"] and isinstance(p["p"][0], dict) and p["p"][0].get("f") == 0 and p["l"] not in self.names:
             d = self.single_def(p["l"])
@@ -416,6 +421,35 @@ class Body:
                     return self._proj(base, p["p"][n:], depth, seen)
         base = self.lname(p["l"], depth, seen)
         return self._proj(base, p["p"], depth, seen)
+
+    def _const_elem(self, p):
+        """value of `K[i]` where the base local holds a named integer-array constant and i is a constant; else None."""
+        d = self.single_def(p["l"])
+        if not (d and d[2] == "rv" and d[3]["k"] == "use" and "k" in d[3]["o"]):
+            return None
+        k = d[3]["o"]["k"]
+        c = self.facts.consts.get(k.get("def") or "") if k.get("def") else None
+        if c is None or "raw" not in c:
+            return None
+        m = re.match(r"^\[(u8|i8|u16|i16|u32|i32|u64|i64|usize|isize); (\d+)\]$", c.get("ty", ""))
+        if not m:
+            return None
+        n = int(m.group(2))
+        raw = bytes.fromhex(c["raw"])
+        if n == 0 or len(raw) % n:
+            return None
+        w = len(raw) // n
+        e = p["p"][0]
+        if "cidx" in e:
+            i = e["cidx"]
+        else:
+            di = self.single_def(e["idx"])
+            if not (di and di[2] == "rv" and di[3]["k"] == "use" and "k" in di[3]["o"] and "int" in di[3]["o"]["k"]):
+                return None
+            i = int(di[3]["o"]["k"]["int"])
+        if not (0 <= i < n):
+            return None
+        return int.from_bytes(raw[i * w:(i + 1) * w], "little", signed=m.group(1).startswith("i"))
 
     def _proj(self, base, proj, depth, seen):
         p = {"p": proj}
